@@ -7,14 +7,16 @@
  "harness": "h_copy_file_chunk",
  "loop_contracts": true,
  "includes": ["misc"],
- "unwind": 16,
+ "unwind": 6,
+ "unwindset": {"__CPROVER_contracts_write_set_check_assigns_clause_inclusion.0": 18},
+ "backend": "cadical",
  "unwind_reason": "all three loops of copy_file_chunk (64 KiB windows, blocks of a window, partial writes of a block) are cut by in-place loop contracts (hooks-pending/tools.diff); the bound only serves the DFCC library's write-set loops (unwinding assertions on)",
  "functions": ["misc/create_inode.c:copy_file_chunk"],
  "assumes": ["NEEDS the hooks in hooks-pending/tools.diff (three loop contracts in copy_file_chunk)",
              "no contract is ENFORCED on copy_file_chunk (no frame obligations): harness CHECKs + protocol monitor in the stubs of pread64, memcmp, ext2fs_file_llseek, ext2fs_file_write",
              "pread64 is a stub: -1 (errno chosen by the harness, > 0) or an arbitrary count 0..65536 (short reads included); the 64 KiB buffer holds ARBITRARY bytes which stand for the bytes delivered (the stub does not rewrite the buffer)",
              "the statement is relative to the bytes pread DELIVERS: a short read before end-of-file is not retried by the code (the rest of that 64 KiB window is not copied) - Linux regular files do not produce such reads",
-             "memcmp is replaced by its libc contract at a ghost index: result 0 => bytes at the arbitrary index verif_k are equal; result != 0 => a witness index with different bytes exists",
+             "memcmp is a stub with an ARBITRARY result that never reads the bytes; what is proved is that it is called on exactly the block at the frontier against zerobuf over exactly the block length and that result 0 <=> the block is skipped; that result 0 <=> all bytes zero is libc's contract plus zerobuf holding zeros (copy_file: ext2fs_get_memzero(blocksize))",
              "ext2fs_file_llseek may fail with a harness-chosen code; ext2fs_file_write may fail or accept an ARBITRARY number 0..nbytes of bytes",
              "zerobuf is blocksize zero bytes (copy_file: ext2fs_get_memzero); fs->blocksize a power of two 1024..65536; 0 <= start, end <= 2^62 (offsets produced by try_lseek_copy / FIEMAP / st_size on a host whose files are smaller than 2^62)",
              "U/iter: statement proved for one arbitrary window, one arbitrary block of it, one arbitrary partial write, each from an arbitrary state satisfying the (proved inductive) loop invariants"],
@@ -56,14 +58,12 @@
 
 struct in_s {
 	long long start, end;
-	long long got;		/* pread result */
+	long long got[8];	/* pread results */
 	unsigned int lg;
 	int fd, err;
-	int cmp;		/* memcmp result */
-	unsigned int witness;
-	long seek_ret, write_ret;
-	unsigned int wrote;
-	unsigned int k;
+	int cmp[8];		/* memcmp results */
+	long seek_ret[8], write_ret[8];
+	unsigned int wrote[8];
 };
 struct in_s IN;
 #include "verif_in.h"
@@ -77,14 +77,20 @@ static unsigned int g_bs;
 static int g_fd;
 static char *g_buf, *g_zerobuf;
 static char g_file_obj;
-/* each stub is executed at most once on any path of the cut loops (one arbitrary iteration each), so one input per stub is complete */
+/*
+ * Stub results: IN.<array>[verif_g6 & 7], verif_g6 = number of stub calls so far.  DFCC runs the first iteration of a cut loop
+ * from the real initial state and then one iteration from the havocked state, on the same path; verif_g6 is havocked with
+ * the loop state, so the arbitrary iteration draws results that are independent of the first iteration's.
+ */
+#define DRAW(arr) (IN.arr[verif_g6 & 7])
 
 #define SPEC_POS_MAX (1LL << 62)
 #define SPEC_WINDOW 65536
 
 ssize_t pread64(int fd, void *buf, size_t count, off64_t offset)
 {
-	long long got = IN.got;
+	long long got = DRAW(got);
+	verif_g6++;
 	CHECK(fd == g_fd && buf == (void *)g_buf && count == SPEC_WINDOW, "pread: 64 KiB from the source file into the copy buffer");
 	CHECK(verif_g3 == 0 && verif_g2 == verif_g0 + verif_g1, "pread: the previous window has been dealt with completely");
 	CHECK(offset >= 0 && (unsigned long long)offset == (unsigned long long)IN.start + verif_g5 * SPEC_WINDOW, "pread: windows are consecutive from start");
@@ -102,20 +108,20 @@ ssize_t pread64(int fd, void *buf, size_t count, off64_t offset)
 
 int memcmp(const void *a, const void *b, size_t n)
 {
-	int r = IN.cmp;
+	int r = DRAW(cmp);
+	verif_g6++;
 	unsigned long long left = verif_g0 + verif_g1 - verif_g2;
 	CHECK(verif_g3 == 0 && verif_g2 < verif_g0 + verif_g1, "zero test: at a block boundary inside the delivered window");
 	CHECK(a == (const void *)(g_buf + (verif_g2 - verif_g0)) && b == (const void *)g_zerobuf, "zero test: the block at the frontier against zerobuf");
 	CHECK(n == (left < g_bs ? left : g_bs), "zero test: over exactly the block (the last one of a short window is shorter)");
+	/*
+	 * libc: the result is 0 iff the n bytes at a equal the n bytes at b - with a, b, n as checked above and zerobuf
+	 * holding zeros: iff every byte of the block is zero.  The stub does not look at the bytes (arbitrary result).
+	 */
 	if (r == 0) {
-		unsigned int k = IN.k;
-		ASSUME(k >= n || ((const char *)a)[k] == ((const char *)b)[k]);	/* libc: 0 => equal at every index */
-		CHECK(k >= n || g_buf[(verif_g2 - verif_g0) + k] == 0, "a block that is skipped (hole kept) holds only zero bytes (arbitrary byte k)");
-		verif_g2 += n;		/* skipped */
+		verif_g2 += n;		/* all zero: skipped, the destination keeps a hole */
 	} else {
-		unsigned int j = IN.witness;
-		ASSUME(j < n && ((const char *)a)[j] != ((const char *)b)[j]);	/* libc: != 0 => some byte differs */
-		verif_g3 = 1;
+		verif_g3 = 1;		/* some byte is non-zero: the block has to be written */
 		verif_g4 = verif_g2 + n;
 	}
 	return r;
@@ -123,10 +129,11 @@ int memcmp(const void *a, const void *b, size_t n)
 
 errcode_t ext2fs_file_llseek(ext2_file_t file, __u64 offset, int whence, __u64 *ret_pos)
 {
-	long e = IN.seek_ret;
+	long e = DRAW(seek_ret);
+	verif_g6++;
 	CHECK((char *)file == &g_file_obj && whence == EXT2_SEEK_SET, "seek: absolute, on the destination file");
 	CHECK(verif_g3 == 1 && offset == verif_g2, "seek: a non-zero block is written at its own offset (source offset == destination offset, 64 bits)");
-	if (e) {
+	if (e > 0) {
 		verif_g7 = e;
 		return e;
 	}
@@ -136,13 +143,14 @@ errcode_t ext2fs_file_llseek(ext2_file_t file, __u64 offset, int whence, __u64 *
 
 errcode_t ext2fs_file_write(ext2_file_t file, const void *buf, unsigned int nbytes, unsigned int *written)
 {
-	long e = IN.write_ret;
-	unsigned int w = IN.wrote;
+	long e = DRAW(write_ret);
+	unsigned int w = DRAW(wrote);
+	verif_g6++;
 	CHECK((char *)file == &g_file_obj, "write: to the destination file");
 	CHECK(verif_g3 == 2, "write: only after the destination was positioned");
 	CHECK(buf == (const void *)(g_buf + (verif_g2 - verif_g0)), "write: the byte for destination offset P is the byte read from source offset P");
 	CHECK(nbytes > 0 && verif_g2 + nbytes == verif_g4, "write: exactly the rest of the block, never beyond it");
-	if (e) {
+	if (e > 0) {
 		verif_g7 = e;
 		return e;
 	}
@@ -166,10 +174,9 @@ void h_copy_file_chunk(void)
 	ASSUME(IN.lg >= 10 && IN.lg <= 16);
 	ASSUME(IN.start >= 0 && IN.start <= SPEC_POS_MAX && IN.end >= 0 && IN.end <= SPEC_POS_MAX);
 	ASSUME(IN.err > 0);
-	ASSUME(IN.seek_ret >= 0 && IN.write_ret >= 0);
 	fs->blocksize = g_bs = 1u << IN.lg;
 	g_buf = malloc(SPEC_WINDOW);			/* arbitrary contents */
-	g_zerobuf = calloc(1, 65536);			/* at least blocksize zero bytes */
+	g_zerobuf = malloc(65536);			/* never read: the zero test is memcmp's contract */
 	ASSUME(g_buf && g_zerobuf);
 	g_fd = IN.fd;
 	errno = IN.err;
